@@ -443,6 +443,15 @@ fn eidata<E: EndianParse>(v: u8) -> String {
     show_res(&E::from_ei_data(v), |e| show_bool(e.is_little()).to_string())
 }
 
+fn eidata_flags<E: EndianParse>(v: u8) -> String {
+    match E::from_ei_data(v) { Ok(e) => format!("{}{}", e.is_little() as u8, e.is_big() as u8), Err(_) => "-".into() }
+}
+
+/// `is_little()` / `is_big()` of the spec value `from_ei_data` produced ("10", "01", or "-" when it was refused)
+pub fn eidata_flags_spec(spec: &str, v: u8) -> String {
+    dispatch_spec!(spec, eidata_flags, v)
+}
+
 /// Execute one request line on the implementation.
 pub fn run_line(line: &str) -> String {
     let t: Vec<&str> = line.trim().split(' ').collect();
@@ -533,6 +542,27 @@ pub fn run_line(line: &str) -> String {
                 Ok(t) => show_found(&t.find(&name, &SymbolTable::new(e, c, &sym), &StringTable::new(&strs))),
                 Err(er) => format!("new:err {}", show_err(&er)),
             }
+        }
+        [kind @ ("sysvm" | "gnum"), le, cls, symhex, strhex, nameshex, hashhex] => {
+            // several lookups on ONE table value (and one symbol/string table): a lookup is a pure function of its arguments
+            let e = any_endian(*le == "1");
+            let c = class_of(cls);
+            let (sym, strs, hash) = (unhex(symhex), unhex(strhex), unhex(hashhex));
+            let names: Vec<Vec<u8>> = nameshex.split('.').map(unhex).collect();
+            let (symtab, strtab) = (SymbolTable::new(e, c, &sym), StringTable::new(&strs));
+            let mut out = vec![];
+            if *kind == "sysvm" {
+                match SysVHashTable::new(e, c, &hash) {
+                    Ok(t) => for n in &names { out.push(show_found(&t.find(n, &symtab, &strtab))); },
+                    Err(er) => out.push(format!("new:err {}", show_err(&er))),
+                }
+            } else {
+                match GnuHashTable::new(e, c, &hash) {
+                    Ok(t) => for n in &names { out.push(show_found(&t.find(n, &symtab, &strtab))); },
+                    Err(er) => out.push(format!("new:err {}", show_err(&er))),
+                }
+            }
+            out.join(" | ")
         }
         ["verit", kind, le, cls, count, off, hexd] => run_verit(
             kind,
